@@ -6,22 +6,22 @@
 EXTENDS ConfM
 CONSTANTS Kinds, MaxDev
 
-VARIABLES k, s, out, done
-vars == <<k, s, out, done>>
+VARIABLES k, s, out, n
+vars == <<k, s, out, n>>
 
-Init == /\ k \in Kinds /\ s = BaseShape(k) /\ out = "pending" /\ done = FALSE
-Load(sh) == /\ ~done /\ s' = sh /\ out' = MVerdict(k, sh) /\ done' = TRUE /\ UNCHANGED k
-Next == \E sh \in Shapes(k, MaxDev) : Load(sh)
+Init == /\ k \in Kinds /\ s \in Shapes(k, 1) /\ out = MVerdict(k, s) /\ n = 1
+More(sh) == /\ s' = sh /\ out' = MVerdict(k, sh) /\ n' = n + 1 /\ UNCHANGED k
+Next == n < MaxDev /\ \E sh \in Extend(k, s) : More(sh)
 
-MRefinesP == done => /\ (PVerdict(k, s) = "accept") => out = "acc"
-                     /\ (PVerdict(k, s) = "reject") => out = "rej"
+MRefinesP == /\ (PVerdict(k, s) = "accept") => out = "acc"
+             /\ (PVerdict(k, s) = "reject") => out = "rej"
 PTotal    == PVerdict(k, s) \in {"accept", "reject", "gray"}
-TablesOK  == \A f \in FieldSet(k) :
+ASSUME TablesOK == \A kk \in AllKinds : \A f \in FieldSet(kk) :
                /\ Baseline(f) \in States(f)
                /\ Class(f, Baseline(f)) = "A"
                /\ {p[1] : p \in MTab(f)} = States(f)
                /\ \A st \in States(f) : Class(f, st) \in {"A", "R", "G"}
 \* closure: every state that stands for a dangling reference is a must-reject
-Closure   == \A f \in FieldSet(k) : \A st \in States(f) :
+ASSUME Closure == \A kk \in AllKinds : \A f \in FieldSet(kk) : \A st \in States(f) :
                st \in {"dangling", "tagdangling", "proddangling"} => Class(f, st) = "R"
 =========================================================================
